@@ -1,6 +1,7 @@
 import HdVerif.Proofs.FrameAccess
 import HdVerif.Proofs.Offsets
 import HdVerif.Proofs.OffsetsTie
+import HdVerif.Generated.T11e
 /-! # C05  Every way of fetching stored frames returns the same pixels
 
 Property theorems only (helper lemmas live in `Proofs/`).  All statements are about the
@@ -494,6 +495,25 @@ theorem read_stop_is_the_source_stop (fs : List Frag) (table : List Nat) (i off 
 /-- non-vacuity: a JPEG-marked two-fragment stream through the regenerated step -/
 example : botStepGen [0xFF, 0xD8, 1, 2] 0 ([], []) = .ok (12, ([0], [0])) := by decide
 example : botStepGen [1, 2, 3] 0 ([], []) = .error .other := by decide
+
+
+/-- the file reader decodes a frame with the image's own parameters: every parameter of `decode_frame` is handed the
+    metadata attribute of the same meaning, the data are `read_frame_raw` of the same index, and the planar configuration
+    is forwarded when present (regenerated forwarding table T11e; dropping or redirecting an argument — e.g. the planar
+    configuration, seeded R4C05-2 — changes the table) -/
+theorem reader_forwards_every_decode_parameter :
+    readerDecodeArgs =
+      [("value", "self.read_frame_raw(index)"),
+       ("bits_allocated", "self.metadata.BitsAllocated"),
+       ("bits_stored", "self.metadata.BitsStored"),
+       ("columns", "self.metadata.Columns"),
+       ("index", "index"),
+       ("photometric_interpretation", "self.metadata.PhotometricInterpretation"),
+       ("pixel_representation", "self.metadata.PixelRepresentation"),
+       ("planar_configuration", "getattr(self.metadata, 'PlanarConfiguration', None)"),
+       ("rows", "self.metadata.Rows"),
+       ("samples_per_pixel", "self.metadata.SamplesPerPixel"),
+       ("transfer_syntax_uid", "self.transfer_syntax_uid")] := by decide
 
 
 end HdVerif.C05
